@@ -47,7 +47,11 @@ BadStorage == RejectEnv /\ Ev.ev = "StorageSelect" /\ ~StorageOk /\ UNCHANGED fa
 ErrNames == {S_error, S_error_details}
 LabelsMatch(obs, L) == /\ NamesOf(obs) = NamesOf(L)
                        /\ {p \in obs : p[1] \notin ErrNames} = {p \in L : p[1] \notin ErrNames}
-Fits(i) == i \notin matched /\ exp[i].ts = Ev.ts /\ exp[i].line = Ev.line /\ LabelsMatch(PairsOf(Ev.labels), exp[i].L)
+\* lopen: malformed input - only the error flag is required; vopen: names whose value is left open; opt: names that may be absent
+LabelsFit(obs, e) == IF e.lopen THEN S_error \in NamesOf(obs)
+                     ELSE /\ (NamesOf(e.L) \ e.opt) \subseteq NamesOf(obs) /\ NamesOf(obs) \subseteq NamesOf(e.L)
+                          /\ \A p \in obs : p[1] \in ErrNames \cup e.vopen \/ p \in e.L
+Fits(i) == i \notin matched /\ exp[i].ts = Ev.ts /\ exp[i].line = Ev.line /\ LabelsFit(PairsOf(Ev.labels), exp[i])
 \* C08: streams are listed one after the other; no two streams share a label set, every entry carries its stream's
 \* labels, timestamps inside a stream do not decrease
 StreamOk == \/ ~CheckStreams
